@@ -97,9 +97,21 @@ def gen_case(rng, params, index):
             files["proj/" + source] = body
             no_dyn = rng.chance(0.5)
         else:
-            kind = rng.weighted([(5, "wide"), (3, "multi-error"), (1, "small"), (4, "qt-general"), (2, "qt-everything"), (1, "qt-observers"), (1, "qt-names")])
+            kind = rng.weighted([(5, "wide"), (3, "multi-error"), (1, "small"), (4, "qt-general"), (2, "qt-everything"), (1, "qt-observers"), (1, "qt-names"), (4, "project")])
             extra_types = []
-            if kind == "wide":
+            project = None
+            if kind == "project":
+                # a multi-directory project of C18's generator: what one document's translation sees must not depend on
+                # which other documents (and hence directories) the same process discovered before it
+                from . import c18
+                pc = c18.gen_case(rng.fork("proj"), {"max_schedules": 1}, index)
+                if len(pc["sources"]) >= 2:
+                    project = pc
+                else:
+                    kind = "wide"
+            if project:
+                pass
+            elif kind == "wide":
                 text = widegen.gen_wide(rng)
             elif kind == "multi-error":
                 text = widegen.gen_wide(rng, n_errors=rng.randint(3, 8))
@@ -118,12 +130,20 @@ def gen_case(rng, params, index):
             else:
                 text = docs.render(docs.gen_doc(rng, max_widgets=7))[0]
             name = "generated:" + kind
-            source = "g/Wide.qml"
-            files["proj/" + source] = text
+            if project:
+                for rel, t in project["files"].items():
+                    files[rel] = t
+                source = project["sources"][0]
+                text = None
+            else:
+                source = "g/Wide.qml"
+                files["proj/" + source] = text
             no_dyn = rng.chance(0.15)
     # companions: small accepted documents translated earlier (or later) in the same process
     comps = []
-    for k in range(5):
+    if index >= len(exdocs) and "project" in name:
+        comps = list(project["sources"][1:])
+    for k in range(5 - min(len(comps), 3)):
         rel = "comp/Comp%d.qml" % k
         files["proj/" + rel] = docs.render(docs.gen_doc(rng, want_dynamic=not no_dyn))[0]
         comps.append(rel)
